@@ -13,7 +13,7 @@ import ast
 
 from ..core.inline import expand_helpers
 
-from ..core.astutil import u, call_name, calls, iter_stmts, const, parent_map, ncmp, dot_args, index_elts, guard_chain
+from ..core.astutil import assign_pairs, u, call_name, calls, iter_stmts, const, parent_map, ncmp, dot_args, index_elts, guard_chain
 from ..core.index import AnalysisError
 
 J = "distance3d.gjk._gjk_jolt"
@@ -204,20 +204,18 @@ def r_planes(idx, rep, rule="R-PLANES"):
         n = name
         if isinstance(n, ast.UnaryOp) and isinstance(n.op, ast.USub):
             neg, n = True, n.operand
-        if isinstance(n, ast.Name) and n.id in loc:
-            v = loc[n.id]
-            if isinstance(v, ast.BinOp) and isinstance(v.op, ast.Sub) and u(v.left) in params and u(v.right) in params:
-                fr, to = u(v.right), u(v.left)
-                return (to, fr) if neg else (fr, to)
+        v = loc[n.id] if isinstance(n, ast.Name) and n.id in loc else n          # a named edge or the difference written in place
+        if isinstance(v, ast.BinOp) and isinstance(v.op, ast.Sub) and u(v.left) in params and u(v.right) in params:
+            fr, to = u(v.right), u(v.left)
+            return (to, fr) if neg else (fr, to)
         return None
 
     def face_of_normal(n):
-        if isinstance(n, ast.Name) and n.id in loc:
-            v = loc[n.id]
-            if isinstance(v, ast.Call) and (call_name(v) or "").endswith("cross") and len(v.args) == 2:
-                e1, e2 = edge(v.args[0]), edge(v.args[1])
-                if e1 and e2:
-                    return set(e1) | set(e2)
+        v = loc[n.id] if isinstance(n, ast.Name) and n.id in loc else n
+        if isinstance(v, ast.Call) and (call_name(v) or "").endswith("cross") and len(v.args) == 2:
+            e1, e2 = edge(v.args[0]), edge(v.args[1])
+            if e1 and e2:
+                return set(e1) | set(e2)
         return None
 
     def entries(arrname):
@@ -307,8 +305,9 @@ def r_solverdispatch(idx, rep, rule="R-SOLVERDISPATCH"):
         if isinstance(st, ast.If) and ncmp(st.test) is not None and u(ncmp(st.test)[1]) == n and ncmp(st.test)[0] == "==":
             k = const(ncmp(st.test)[2])
             if k == 1:
-                masks = [s for s in st.body if isinstance(s, ast.Assign) and const(s.value) == 1]
-                pts = [s for s in st.body if isinstance(s, ast.Assign) and u(s.value) == "%s[0]" % Y]
+                pairs_ = [pr for s in st.body for pr in assign_pairs(s)]
+                masks = [t_ for t_, v_ in pairs_ if const(v_) == 1]
+                pts = [t_ for t_, v_ in pairs_ if u(v_) == "%s[0]" % Y]
                 rep.check(bool(masks and pts), rule, f.key + "|1 point", "%s:%d" % (f.module.relpath, st.lineno), "1-point case must return Y[0] with mask 0b0001")
                 seen.add(1)
             elif k in want:
